@@ -309,7 +309,7 @@ theorem cancels_the_rest (i : Nat)
     (hc : (run (initWorld cfg listener directs relays) evs).conns j = some c) :
     c.negD ≠ .pending ∧ (c.negD ≠ .ok → 1 ≤ c.lost ∨ c.gone = true) := by
   have hI := WInv_init cfg listener directs relays
-  have hT := TR_run hI (TR_init cfg listener directs relays) evs
+  have hT := TR_run hI (Port_init cfg listener directs relays) (K_init cfg listener directs relays) (TR_init cfg listener directs relays) evs
   have h8 := W8_run hI (by intro i c h; simp [initWorld] at h) evs
   have hnp := TR_no_pending hT hres j c hc
   refine ⟨hnp, ?_⟩
@@ -326,7 +326,7 @@ theorem contenders_all_done (i : Nat)
     (hq : phaseOf (run (initWorld cfg listener directs relays) evs) k = some q) :
     ∃ r x, q = .done r x := by
   have hI := WInv_init cfg listener directs relays
-  have hT := TR_run hI (TR_init cfg listener directs relays) evs
+  have hT := TR_run hI (Port_init cfg listener directs relays) (K_init cfg listener directs relays) (TR_init cfg listener directs relays) evs
   obtain ⟨hrem, hs⟩ := hT.t6 i hres
   have hk : k < (run (initWorld cfg listener directs relays) evs).cont.length := by
     unfold phaseOf at hq
@@ -341,6 +341,76 @@ theorem contenders_all_done (i : Nat)
     subst this
     cases p <;> simp [isDone] at h3
     exact ⟨_, _, rfl⟩
+
+/-- the wiring of `Common._get_direct_hints`, from the source: the function that calls the port's
+    `stopListening()` is attached to `_listener_d` for BOTH outcomes (`addBoth`) -/
+theorem listener_stop_wiring :
+    Gen.Transit.listener_stop_on_callback = true ∧ Gen.Transit.listener_stop_on_errback = true := by decide
+
+/-- **listener lifetime**: in every reachable world, while the listening port is open (inbound
+    connections are only possible then) `_listener_d` has not fired — so on every way it ends
+    (an inbound connection won; it was cancelled because another contender won or because the
+    `connect()` deadline fired) the port has been stopped. -/
+theorem listener_lifetime
+    (hopen : (run (initWorld cfg listener directs relays) evs).portOpen = true) :
+    phaseOf (run (initWorld cfg listener directs relays) evs) 0 = some .listening :=
+  (run_Port _ evs (Port_init cfg listener directs relays)).pl hopen
+
+/-- … hence once `connect()` has returned a connection no later arrival is possible: the port is
+    closed (with `contenders_all_done`: every contender Deferred, the listener's included, has
+    fired) -/
+theorem port_closed_after_success (i : Nat)
+    (hres : (run (initWorld cfg listener directs relays) evs).result = .ok i) :
+    (run (initWorld cfg listener directs relays) evs).portOpen = false := by
+  cases hp : (run (initWorld cfg listener directs relays) evs).portOpen with
+  | false => rfl
+  | true =>
+    have h1 := listener_lifetime cfg listener directs relays evs hp
+    obtain ⟨r, x, h2⟩ := contenders_all_done cfg listener directs relays evs i hres 0 _ h1
+    cases h2
+
+/-- **once `connect()` has fired — with a connection OR with a failure (all contenders failed, or
+    the deadline cancelled them) — the listening port is stopped**: no later arrival can be
+    accepted, so a Sender whose `connect()` failed can never confirm a late Receiver with `go`.
+    (Invariant `TR.t8`: a result implies `_listener_d` has fired — through `_maybe_done` because
+    `_remaining` is empty, through the deadline because `_cancel` cancels it; then
+    `listener_lifetime`.) -/
+theorem port_closed_once_fired
+    (hres : (run (initWorld cfg listener directs relays) evs).result ≠ .pending) :
+    (run (initWorld cfg listener directs relays) evs).portOpen = false := by
+  cases hp : (run (initWorld cfg listener directs relays) evs).portOpen with
+  | false => rfl
+  | true =>
+    have h1 := listener_lifetime cfg listener directs relays evs hp
+    have hI := WInv_init cfg listener directs relays
+    have hT := TR_run hI (Port_init cfg listener directs relays) (K_init cfg listener directs relays)
+      (TR_init cfg listener directs relays) evs
+    exact absurd h1 (hT.t8 hres)
+
+/-- `deadline` in the section's notation -/
+theorem deadline_holds
+    (hst : (run (initWorld cfg listener directs relays) evs).started = true)
+    (hnow : (run (initWorld cfg listener directs relays) evs).t0 + Gen.Transit.CONNECT_DEADLINE_s ≤
+      (run (initWorld cfg listener directs relays) evs).now) :
+    (run (initWorld cfg listener directs relays) evs).result ≠ .pending := by
+  have hK : K (run (initWorld cfg listener directs relays) evs) := K_run (K_init cfg listener directs relays) evs
+  intro hp
+  have hsome := hK.p2 hst hp
+  cases hd : (run (initWorld cfg listener directs relays) evs).deadline with
+  | none => rw [hd] at hsome; cases hsome
+  | some t =>
+    have h1 := (hK.p1.2 t hd).2
+    have h2 := hK.future t hd
+    omega
+
+/-- with `deadline`: `2·TIMEOUT` after `connect()` was called the port is closed, whatever happened -/
+theorem port_closed_by_deadline
+    (hst : (run (initWorld cfg listener directs relays) evs).started = true)
+    (hnow : (run (initWorld cfg listener directs relays) evs).t0 + Gen.Transit.CONNECT_DEADLINE_s ≤
+      (run (initWorld cfg listener directs relays) evs).now) :
+    (run (initWorld cfg listener directs relays) evs).portOpen = false :=
+  port_closed_once_fired cfg listener directs relays evs
+    (deadline_holds cfg listener directs relays evs hst hnow)
 
 /-- the deadline statement of the design: once the clock has reached `t0 + 2·TIMEOUT` (`t0` = the
     time `connect()` was called), `connect()` has completed — with a connection or with a failure —
@@ -403,6 +473,14 @@ example :
       [.connect, .advance 0, .connected 0, .data 0 [111, 107], .data 0 [10, 7, 8, 9, 103], .data 0 [111, 10]]
     ((w.conns 0).map (·.state) = some .records) ∧ ((w.conns 0).map (·.out) = some [[5], [1, 2]]) ∧
     w.result = .ok 0 := by
+  decide
+
+/-- the seeded scenario: the Sender's `connect()` fails at its deadline; the port is closed, so the
+    late `inbound` event is not possible (the world does not change) and nobody gets `go` -/
+example :
+    let w := run (initWorld (toyCfg true) true 0 []) [.connect, .advance 120]
+    w.result = .fail .cancelled ∧ w.portOpen = false ∧
+    (run w [.inbound, .data 0 [7, 8, 9]]).n = 0 ∧ (run w [.inbound, .data 0 [7, 8, 9]]).winner = none := by
   decide
 
 /-- nothing can be negotiated: after the deadline `connect()` has failed -/
